@@ -118,7 +118,7 @@ def oracle(tier, rng, seeds):
         n += check_level(drv, r, fails)
         for nid in all_ids(r) if r <= (4 if tier == 'quick' else 7) else []:
             check_valid_id(drv, nid, fails); n += 1
-    for _ in range(2000 if tier == 'quick' else 100000):
+    for _ in range(2000 if tier == 'quick' else 500000):
         from refids import random_valid_id
         check_valid_id(drv, random_valid_id(rng, 0, MAXV), fails); n += 1
     # inputs on which model and implementation disagreed
